@@ -340,6 +340,13 @@ func init() {
 		for _, svc := range []int64{0, 1, 2, 3, 4, 5, 7, 9, 11} {
 			add(svc, 0, 0, 0, 0, 0)
 		}
+		// a decoded telegram stays what it is when the buffer is reused and another telegram of the same
+		// kind is decoded afterwards: one instance per cEMI kind, through both carrying services
+		for _, svc := range []int64{6, 8} {
+			for kind := int64(0); kind <= 10; kind++ {
+				add(svc, kind, 1, 3, 0, 0, 1)
+			}
+		}
 		infos := []int64{0, 1, 2, 255}
 		datas := []int64{1, 2, 15, 16, 254}
 		raws := []int64{0, 1, 5}
@@ -427,8 +434,8 @@ func init() {
 		Thorough: func(l *loaded) []Inst {
 			return append(append(c02(true), c02relay(48)...), Inst{Pkg: "knxnet", Fn: "HarnessC02Indications"})
 		},
-		Covers:  []string{"C02.end", "C02.relay.accepted", "C02.relay.rejected", "C02.ind.end"},
-		Bounds:  "encode->decode of every encodable service type (connect, connection-state, disconnect req/res, tunnelling req/ack, routing indication, search/description req/res) x every cEMI kind (L_Data req/con/ind with application and control units, L_Raw req/con/ind, L_Busmon.ind, unsupported code); all field values symbolic; quick: info length {0,1,2,255}, payload {1,2,15,16,254}, raw {0,1,5}, families {0,1,2}, name length {0,1,29}; thorough: every info length 0..255, payload 1..254, raw 0..40, families 0..20, names 0..29; plus decode -> re-encode -> decode of fully symbolic byte strings (see outside_bounds for the lengths)",
+		Covers:  []string{"C02.end", "C02.held", "C02.relay.accepted", "C02.relay.rejected", "C02.ind.end"},
+		Bounds:  "encode->decode of every encodable service type (connect, connection-state, disconnect req/res, tunnelling req/ack, routing indication, search/description req/res) x every cEMI kind (L_Data req/con/ind with application and control units, L_Raw req/con/ind, L_Busmon.ind, unsupported code); all field values symbolic; quick: info length {0,1,2,255}, payload {1,2,15,16,254}, raw {0,1,5}, families {0,1,2}, name length {0,1,29}; thorough: every info length 0..255, payload 1..254, raw 0..40, families 0..20, names 0..29; a decoded telegram of every cEMI kind held while the buffer is overwritten and a second telegram of the same kind is decoded; plus decode -> re-encode -> decode of fully symbolic byte strings (see outside_bounds for the lengths)",
 		Outside: "decode->re-encode->decode: every byte string of length 6..24 (thorough ..48) under each service identifier, description responses of 60..66 bytes with a device-information DIB first, search responses of 68..74 bytes; longer strings; lengths not enumerated in the quick tier of the encode->decode direction",
 		Assume:  []string{"validity predicate: first payload byte < 64, unnumbered units carry sequence 0, hardware address 6 bytes, friendly name of non-NUL Latin-1 characters, DIB type octets 1 and 2", "x/text ISO-8859-1 codec replaced by the built-in byte<->rune map"},
 	})
@@ -773,7 +780,7 @@ func init() {
 			Inst{Pkg: "knx", Fn: "HarnessC14Big", Args: []int64{32, 8, 300}, Ctx: -2, RandChoice: true, Unwind: 4000, MaxSched: 100000, Note: "300 sends on one client, then 65535 telegrams reported lost: exactly the last 32 are repeated (one schedule)"})
 		out = append(out, Inst{Pkg: "knx", Fn: "HarnessC14Group", Args: []int64{3, 5}, Ctx: 2, RandChoice: true, Unwind: 2000, Note: "two group events through NewGroupRouter, both reported lost"},
 			Inst{Pkg: "knx", Fn: "HarnessC14Group", Args: []int64{16, 2}, Ctx: 2, RandChoice: true, Unwind: 2000})
-		for sc := int64(0); sc <= 4; sc++ {
+		for sc := int64(0); sc <= 5; sc++ {
 			out = append(out, Inst{Pkg: "knx", Fn: "HarnessC14Run", Args: []int64{sc}, Ctx: ctx, RandChoice: true, MaxSched: 20000, Note: "real serve goroutine"})
 		}
 		return out
@@ -784,7 +791,7 @@ func init() {
 		Quick:    func(l *loaded) []Inst { return c14(false) },
 		Thorough: func(l *loaded) []Inst { return c14(true) },
 		Covers:   []string{"C14.step.sent", "C14.step.sendfail", "C14.lost.resent", "C14.lost.partial", "C14.run.end", "C14.big.end", "C14.group.end"},
-		Bounds:   "one real Send / resendLost step from every retained history of length r <= R for R in 1..5 (thorough ..7) and R = 32 with r <= 3 (messages are distinct objects), lost count fully symbolic (0..65535), transmission failing at a nondeterministic position; a full history of 32 telegrams of 80 bytes (and 12 of 254 bytes) reported lost and compared byte for byte; 300 sends followed by a lost indication claiming 65535 telegrams (single schedule); two group events (payload symbolic) through NewGroupRouter reported lost and compared byte for byte; bounded runs of the real serve goroutine with senders, lost and busy indications, slow/absent reader and Close, a lost indication before, after and inside a busy period, context bound 3 (thorough 4)",
+		Bounds:   "one real Send / resendLost step from every retained history of length r <= R for R in 1..5 (thorough ..7) and R = 32 with r <= 3 (messages are distinct objects), lost count fully symbolic (0..65535), transmission failing at a nondeterministic position; a full history of 32 telegrams of 80 bytes (and 12 of 254 bytes) reported lost and compared byte for byte; 300 sends followed by a lost indication claiming 65535 telegrams (single schedule); two group events (payload symbolic) through NewGroupRouter reported lost and compared byte for byte; bounded runs of the real serve goroutine with senders, lost and busy indications, slow/absent reader and Close, a lost indication before, after and inside a busy period, lost indications that resolve to nothing (empty history, count 0) followed by traffic and one that counts, context bound 3 (thorough 4)",
 		Outside:  "retain counts 4..31 and 33..64; histories longer than 300 sends (one 300-send history on a client built by NewRouter is run under a single schedule; beyond that, induction over the one-step harness: Send and resendLost keep no state but the list), a lost indication arriving while an earlier resend is still in progress (excluded by the property)",
 		Assume:   []string{"container/list is executed from its real SSA", "in the bounded runs math/rand.Float64 is one of {0, 0.5, 0.9999999}"},
 	})
